@@ -33,6 +33,10 @@ C["C08"] = dict(
     text="inside the same search as C06: every slice returned by ReadBytes/Peek is remembered with its expected bytes and re-compared after every later operation (further reads, writes in both directions, an adversary that allocates every free buffer, fills it with 0xEE and recycles it) until ReleasePreviousRead / ReleaseReadAndReuse / Close; after release (drain+release+close and close-only completions of every state) no buffer remains allocated",
     note="as C06",
     technique=TECH_S, design="DESIGN.md section 4 C08")
+C["C13"] = dict(
+    text="established phase: for each publicly constructible session kind (client owned by a SessionManager, server owned by a Listener, server from Server()) every single event of the grammar (12 types x 4 versions x magic x 14 length-field values x 9 payloads), all pairs and selected/all triples of a 13-event reduced set, each under every splitting with <=1 (quick) / <=2 (thorough) cut points, delivered through the real connEventHandler.onReadReady/commitRead on a socketpair and the real handleEvents and handlers, posted lambdas included; oracles: no panic, invalid header closes the session with an error, effect identical for every splitting. Handshake phase: real newSession (server role; client role with memfd) in child processes against a scripted raw peer playing every handshake event / metadata body / length combination; oracle: newSession returns, the process survives",
+    note="handlers and lambdas run on the harness goroutine under recover; handshake cases run in child processes and a dead child is attributed to the case it was running; shared-memory contents are not part of the input alphabet (only control-connection bytes)",
+    technique="explicit enumeration of an event grammar and of all splittings up to a cut bound on the real parsing code (fault/input enumeration with a differential unsplit-vs-split oracle)", design="DESIGN.md section 4 C13")
 NA = {}
 m = {
     "version": 1,
